@@ -92,6 +92,7 @@ type JobResult struct {
 	Decisions   int64
 	Merged      int64
 	UnknownFeas int
+	Skipped     int // work items dropped after MaxViolations counterexamples
 	WallMS      int64
 	Samples     []string
 	mu          sync.Mutex
@@ -778,6 +779,7 @@ type Exec struct {
 	FeasTimeout       time.Duration
 	NLFeasTimeout     time.Duration
 	MaxUnknownFeas    int
+	MaxViolations     int
 	RepoDir           string
 	asmOnce           sync.Once
 	asmProg           *asmProgram
@@ -882,7 +884,21 @@ func (x *Exec) runPath(it workItem, sess, sessA *term.Session, res *JobResult, f
 		known: map[string]*term.Term{}, fnSeen: map[*ssa.Function]int{}}
 	res.mu.Lock()
 	over := x.MaxPaths > 0 && res.Paths >= x.MaxPaths
+	// a job that has already produced enough counterexamples is not explored further
+	nviol := 0
+	for _, o := range res.Obls {
+		if o.Status == "violated" && o.Known == "" {
+			nviol++
+		}
+	}
+	stop := x.MaxViolations > 0 && nviol >= x.MaxViolations && res.Paths > 0
+	if stop {
+		res.Skipped++
+	}
 	res.mu.Unlock()
+	if stop {
+		return
+	}
 	if over {
 		p.noteErr(fmt.Sprintf("UNWIND: more than %d paths", x.MaxPaths))
 		return
